@@ -53,9 +53,23 @@ fn prepopulate(r: &mut Rng, a: &mut Allocator, flags: ClvmFlags, ctx: &mut Ctx) 
                 }
             }
             3 => {
-                // a failed run that validated BLS points first (cache is kept on failure)
+                // a failed run that validated BLS points first (cache is kept on failure);
+                // the points are drawn from the same small pools (valid and invalid blobs)
+                // the programs under test use
                 let mut f = Forest::new();
-                let p = sexp::parse(&mut f, "(c (g1_negate (pubkey_for_exp (q . 7))) (c (g2_negate (g2_map (q . 9))) (x)))", &[]);
+                let pts = crate::util::points();
+                let g1 = if r.chance(1, 2) { r.pick(&pts.bad_g1) } else { r.pick(&pts.g1) }.clone();
+                let g2 = if r.chance(1, 2) { r.pick(&pts.bad_g2) } else { r.pick(&pts.g2) }.clone();
+                let (g1, g2) = (f.atom(&g1), f.atom(&g2));
+                let text = *r.pick(&[
+                    "(c (g1_negate (pubkey_for_exp (q . 7))) (c (g2_negate (g2_map (q . 9))) (x)))",
+                    "(c (g1_negate (q . $g1)) (x))",
+                    "(c (g2_negate (q . $g2)) (x))",
+                    "(g1_negate (q . $g1))",
+                    "(g2_negate (q . $g2))",
+                    "(c (g2_negate (q . $g2)) (g1_negate (q . $g1)))",
+                ]);
+                let p = sexp::parse(&mut f, text, &[("g1", g1), ("g2", g2)]);
                 let e = f.nil();
                 if let Some((pp, ee)) = materialize2(&f, a, p, e, 1, 0) {
                     let o = run_chia(a, flags & !ClvmFlags::RELAXED_BLS, pp, ee, 0);
@@ -231,6 +245,37 @@ pub fn run(ctx: &mut Ctx) {
             }
             let mut r = ctx.rng(cid);
             check(ctx, &mut r, &f, *p, *e, fl, 0);
+        }
+    }
+    // every pool blob (valid and invalid) through the point-validating operators
+    {
+        let pts = crate::util::points();
+        let mut blobs: Vec<(&str, Vec<u8>)> = Vec::new();
+        for b in pts.g1.iter().chain(pts.bad_g1.iter()) {
+            blobs.push(("(g1_negate (q . $x))", b.clone()));
+            blobs.push(("(point_add (q . $x) (q . $x))", b.clone()));
+            blobs.push(("(g1_multiply (q . $x) (q . 3))", b.clone()));
+        }
+        for b in pts.g2.iter().chain(pts.bad_g2.iter()) {
+            blobs.push(("(g2_negate (q . $x))", b.clone()));
+            blobs.push(("(g2_add (q . $x) (q . $x))", b.clone()));
+        }
+        for (t, b) in blobs {
+            for fl in [ClvmFlags::empty(), ClvmFlags::RELAXED_BLS, ClvmFlags::NEW_COST_MODEL | ClvmFlags::ENABLE_GC] {
+                for _rep in 0..3 {
+                    let cid = DIRECTED | id;
+                    id += 1;
+                    if !ctx.want(cid) {
+                        continue;
+                    }
+                    let mut r = ctx.rng(cid);
+                    let mut f = Forest::new();
+                    let x = f.atom(&b);
+                    let p = sexp::parse(&mut f, t, &[("x", x)]);
+                    let e = f.nil();
+                    check(ctx, &mut r, &f, p, e, fl, 0);
+                }
+            }
         }
     }
     let n = ctx.n(60_000, 10_000_000);
